@@ -78,6 +78,7 @@ type Exec struct {
 	fresh2     int
 	inputObs   []obsTerm
 	stmtHits   map[int]int
+	boxed      map[types.Object]bool
 }
 
 type emitSite struct {
@@ -230,7 +231,13 @@ func (x *Exec) stmt1(s ast.Stmt, st *State) flow {
 				} else {
 					v = Val{x.ctx.Zero(o.Type()), o.Type()}
 				}
-				x.st.vars[o] = Val{v.S, o.Type()}
+				if x.boxed[o] {
+					ref := x.allocObj()
+					x.storeCell(ref, v, o.Type())
+					x.st.vars[o] = Val{ref, types.NewPointer(o.Type())}
+				} else {
+					x.st.vars[o] = Val{v.S, o.Type()}
+				}
 			}
 		}
 		return flow{next: x.st}
@@ -345,6 +352,12 @@ func (x *Exec) define(id *ast.Ident, v Val) {
 		x.fail(id.Pos(), "no object for %s", id.Name)
 	}
 	vv := x.convertTo(v, o.Type())
+	if x.boxed[o] {
+		ref := x.allocObj()
+		x.storeCell(ref, vv, o.Type())
+		x.st.vars[o] = Val{ref, types.NewPointer(o.Type())}
+		return
+	}
 	x.st.vars[o] = Val{vv.S, o.Type()}
 }
 
@@ -439,6 +452,10 @@ func (x *Exec) assignTo(lhs ast.Expr, v Val) {
 			x.fail(l.Pos(), "assignment to non-variable %s", l.Name)
 		}
 		c := x.convertTo(v, vv.Type())
+		if x.boxed[vv] {
+			x.storeCell(x.st.vars[vv].S, c, vv.Type())
+			return
+		}
 		x.st.vars[vv] = Val{c.S, vv.Type()}
 	case *ast.SelectorExpr:
 		if id, ok := l.X.(*ast.Ident); ok {
@@ -478,12 +495,8 @@ func (x *Exec) assignTo(lhs ast.Expr, v Val) {
 	case *ast.StarExpr:
 		p := x.expr(env, l.X)
 		el, _ := ptrElem(p.Ty)
-		if st, ok := structOf(el); ok {
-			x.nilCheck(env, l.Pos(), p)
-			x.storeStruct(p.S, v, st)
-			return
-		}
-		x.fail(l.Pos(), "UNSUPPORTED store through pointer to %s", el)
+		x.nilCheck(env, l.Pos(), p)
+		x.storeCell(p.S, x.convertTo(v, el), el)
 	default:
 		x.fail(lhs.Pos(), "UNSUPPORTED assignment target %T", lhs)
 	}
@@ -740,6 +753,10 @@ func (x *Exec) runLoop(ls *loopSpec, st *State) flow {
 	for _, cl := range invs {
 		g := x.spec(x.specEnvAt(bodyPos), x.parseClause(cl))
 		h.assume(g)
+	}
+	if fr.top && fr.con != nil {
+		x.st = h
+		x.applyUses(fr.unit, fr.con.Clauses, "loop:use", ls.ord, x.specEnvAt(bodyPos))
 	}
 	if fr.top {
 		x.vacuity(fmt.Sprintf("vacuity:loop%d.head", ls.ord), ls.node.Pos(), "loop invariants are satisfiable together with the path")
@@ -1315,6 +1332,7 @@ func (x *Exec) callMods(unit *FuncUnit, call *ast.CallExpr, ms *modSet, seen map
 }
 
 type modItem struct {
+	deref  ast.Expr // *p : everything p points to
 	whole  bool
 	field  *types.Var
 	global *types.Var
@@ -1389,6 +1407,8 @@ func (x *Exec) parseModifies(cu *FuncUnit, con *Contract) []modItem {
 					}
 				}
 				items = append(items, modItem{objExp: t})
+			case *ast.StarExpr:
+				items = append(items, modItem{deref: t.X})
 			default:
 				panic(evalError{fmt.Sprintf("%s:%d: BINDING: unsupported modifies item %q", cl.File, cl.Line, part)})
 			}
@@ -1423,6 +1443,10 @@ func (x *Exec) contractMods(cu *FuncUnit, con *Contract, ms *modSet) {
 			ms.vars[it.global] = true
 		case it.field != nil:
 			ms.fields[it.field] = true
+		case it.deref != nil:
+			for _, f := range x.derefFields(cu, it.deref) {
+				ms.fields[f] = true
+			}
 		case it.objExp != nil:
 			// x.f : mark the field
 			sel := it.objExp.(*ast.SelectorExpr)
@@ -1466,6 +1490,13 @@ func (x *Exec) staticTypeOf(cu *FuncUnit, e ast.Expr) types.Type {
 		for i := 0; i < sig.Params().Len(); i++ {
 			if sig.Params().At(i).Name() == n.Name {
 				return sig.Params().At(i).Type()
+			}
+		}
+		if con := x.v.contractOf(cu); con != nil {
+			for i, a := range con.Params {
+				if a == n.Name && i < sig.Params().Len() {
+					return sig.Params().At(i).Type()
+				}
 			}
 		}
 		for i := 0; i < sig.Results().Len(); i++ {
@@ -1588,4 +1619,24 @@ func (x *Exec) havocAll(st *State) {
 	na := x.ctx.Fresh("alloc", "Int")
 	st.assume("(>= " + na + " " + st.alloc + ")")
 	st.alloc = na
+}
+
+// derefFields: heap fields written by "modifies *p"
+func (x *Exec) derefFields(cu *FuncUnit, pe ast.Expr) []*types.Var {
+	t := x.staticTypeOf(cu, pe)
+	if t == nil {
+		panic(evalError{"BINDING: modifies *" + exprStr(pe) + ": unknown pointer"})
+	}
+	el, ok := ptrElem(t)
+	if !ok {
+		panic(evalError{"BINDING: modifies *" + exprStr(pe) + ": not a pointer"})
+	}
+	if st, ok := structOf(el); ok {
+		var fs []*types.Var
+		for i := 0; i < st.NumFields(); i++ {
+			fs = append(fs, st.Field(i))
+		}
+		return fs
+	}
+	return []*types.Var{x.cellField(el)}
 }
